@@ -376,13 +376,16 @@ class Report:
         self.cov["known_findings_seen"] = self.known
         ev = {"property_id": self.prop, "tier": self.tier, "seed": self.seed, "level": self.level,
               "coverage": self.cov, "assumptions": self.assumptions, "wall_s": round(time.time() - self.t0, 1),
-              "violations": len(self.violations), "notes": self.notes}
+              "violations": len(self.violations) + getattr(self, "more_violations", 0), "notes": self.notes}
         os.makedirs(os.path.join(VERIF, "evidence"), exist_ok=True)
         json.dump(ev, open(os.path.join(VERIF, "evidence", self.prop + ".json"), "w"), indent=1)
         for k, n in self.known.items():
             f = is_known(self.prop, k)
             print("KNOWN-FINDING: property=%s %s (key=%s, seen %d times in this run)" % (self.prop, f["text"] if f else k, k, n))
-        for desc, path in self.violations[:20]:
+        more = getattr(self, "more_violations", 0)
+        if more:
+            print("(%d further failing steps of %s not written out)" % (more, self.prop))
+        for desc, path in self.violations[:25]:
             print("VIOLATION property=%s replay=%s" % (self.prop, path))
             print("  " + desc)
         print("%s %s: %s  states=%d transitions=%d traces=%d evaluations=%d drift=%d wall=%.0fs" % (
